@@ -1,9 +1,144 @@
-"""Self-validation (thorough tier): armed and neutral AST-edited variants (filled in below)."""
+"""Self-validation: every rule is run on *armed* variants of today's sources (one instance broken:
+the rule must fire and name the rule id) and on *neutral* variants (behaviour-preserving edits: every
+rule must stay silent).  Variants are source-to-source edits held in memory: they are parsed by the
+analyser, never written to disk, never executed.
+
+`python -m fsa selftest` runs all of them (development / CI of the checker itself, exit 2 on a
+failure); the thorough tier of a check runs the variants of its property and records the outcome
+in the evidence without changing the verdict (on an edited tree an anchor text may be gone, which
+says nothing about the property).
+"""
+
+from __future__ import annotations
+
+import json
+import multiprocessing as mp
+import time
+from pathlib import Path
+
+from .model import AnalysisError, Program
+
+def load_variants() -> list[dict]:
+    from .variants import VARIANTS
+
+    return VARIANTS
 
 
-def run_for(prop: str) -> int:
+def apply_variant(sources: dict[str, str], v: dict) -> dict[str, str] | None:
+    out = dict(sources)
+    for ed in v["edits"]:
+        src = out.get(ed["module"])
+        if src is None or ed["old"] not in src:
+            return None
+        out[ed["module"]] = src.replace(ed["old"], ed["new"], ed.get("count", 1))
+    return out
+
+
+def _findings(prop: str, prog: Program):
+    from .__main__ import run_check
+
+    _, ctx = run_check(prop, "quick", prog=prog, write=False)
+    return {f.key: f for f in ctx.findings}
+
+
+_BASE: dict[str, set] = {}
+
+
+def _baseline(prop: str) -> set:
+    if prop not in _BASE:
+        _BASE[prop] = set(_findings(prop, Program()))
+    return _BASE[prop]
+
+
+def run_variant(v: dict) -> dict:
+    t0 = time.time()
+    res = {"name": v["name"], "kind": v["kind"], "props": v["props"], "status": "ok", "detail": ""}
+    try:
+        srcs = apply_variant(Program().sources, v)
+        if srcs is None:
+            res["status"] = "skipped"
+            res["detail"] = "anchor text not present in the current tree"
+            return res
+        prog = Program(sources=srcs)
+        for prop in v["props"]:
+            if not (Path(__file__).parent / "rules" / f"{prop.lower()}.py").exists():
+                continue
+            base = _baseline(prop)
+            try:
+                got = _findings(prop, prog)
+            except AnalysisError as e:
+                if v["kind"] == "armed" and v.get("accept_error"):
+                    continue
+                res["status"] = "FAIL"
+                res["detail"] = f"{prop}: ANALYSIS-ERROR {e}"
+                return res
+            new = {k: f for k, f in got.items() if k not in base}
+            if v["kind"] == "armed":
+                want = v.get("rule")
+                hit = [f for f in new.values() if not want or f.rule.startswith(want)]
+                if not hit:
+                    res["status"] = "FAIL"
+                    res["detail"] = f"{prop}: rule {want or '*'} did not fire (new findings: {[f.rule for f in new.values()]})"
+                    return res
+                res["detail"] += f"{prop}:{hit[0].rule} "
+            else:
+                if new:
+                    res["status"] = "FAIL"
+                    res["detail"] = f"{prop}: false alarm {[(f.rule, f.construct[:60]) for f in new.values()]}"
+                    return res
+    except Exception as e:  # noqa: BLE001
+        res["status"] = "FAIL"
+        res["detail"] = f"internal error {type(e).__name__}: {e}"
+    finally:
+        res["wall_s"] = round(time.time() - t0, 2)
+    return res
+
+
+def run_all(variants: list[dict], jobs: int = 16) -> list[dict]:
+    if not variants:
+        return []
+    with mp.get_context("fork").Pool(min(jobs, len(variants))) as pool:
+        return pool.map(run_variant, variants, chunksize=1)
+
+
+def run_for(prop: str, jobs: int = 16) -> int:
+    """Thorough tier: run this property's variants, record in the evidence, never change the verdict."""
+    from .report import EVID
+
+    vs = [v for v in load_variants() if prop in v["props"]]
+    results = run_all(vs, jobs)
+    fails = [r for r in results if r["status"] == "FAIL"]
+    summary = {
+        "variants": len(results),
+        "armed_fired": sum(1 for r in results if r["kind"] == "armed" and r["status"] == "ok"),
+        "neutral_silent": sum(1 for r in results if r["kind"] == "neutral" and r["status"] == "ok"),
+        "skipped": sum(1 for r in results if r["status"] == "skipped"),
+        "failed": [{"name": r["name"], "detail": r["detail"]} for r in fails],
+        "samples": [{"name": r["name"], "kind": r["kind"], "result": r["status"], "detail": r["detail"]} for r in results[:12]],
+    }
+    p = EVID / f"{prop}.json"
+    if p.exists():
+        ev = json.loads(p.read_text())
+        ev["coverage"]["self_validation"] = summary
+        p.write_text(json.dumps(ev, indent=1, default=str) + "\n")
+    print(f"[{prop}] self-validation: {summary['armed_fired']} armed fired, {summary['neutral_silent']} neutral silent, "
+          f"{summary['skipped']} skipped, {len(fails)} failed")
+    for r in fails:
+        print(f"SELFTEST-WARN {r['name']}: {r['detail']}")
     return 0
 
 
-def main(jobs: int = 16, only=None) -> int:
-    return 0
+def main(jobs: int = 16, only: str | None = None) -> int:
+    vs = load_variants()
+    if only:
+        vs = [v for v in vs if only in v["name"] or only in v["props"]]
+    t0 = time.time()
+    results = run_all(vs, jobs)
+    bad = 0
+    for r in results:
+        if r["status"] != "ok":
+            print(f"{r['status']:8} {r['kind']:8} {r['name']}: {r['detail']}")
+        bad += r["status"] == "FAIL"
+    print(f"selftest: {len(results)} variants, {sum(r['status'] == 'ok' for r in results)} ok, "
+          f"{sum(r['status'] == 'skipped' for r in results)} skipped, {bad} failed in {time.time() - t0:.1f}s")
+    return 2 if bad else 0
